@@ -36,6 +36,7 @@ def binary(cls, value_clauses):
         mode = "ieee"
         self_shape = Obj(f"{S}:{cls}")
         shapes = dict(eval_stack=StackT)
+        modifies = ["eval_stack"]
         requires = BINARY_REQUIRES
         ensures = dict(BINARY_ENSURES, **value_clauses)
     _C.__name__ = cls + "Apply"
@@ -68,6 +69,7 @@ def unary(cls, value_clauses, self_shape=None):
     class _C:
         mode = "ieee"
         shapes = dict(eval_stack=StackT)
+        modifies = ["eval_stack"]
         requires = dict(one_operand="len(eval_stack) >= 1")
         ensures = dict(UNARY_ENSURES, **value_clauses)
     _C.self_shape = self_shape or Obj(f"{S}:{cls}")
@@ -98,6 +100,7 @@ class ConstantApply:
     mode = "ieee"
     self_shape = Obj(f"{S}:ConstantValue", _value=Float)
     shapes = dict(eval_stack=StackT)
+    modifies = ["eval_stack"]
     ensures = dict(
         pushes_one="len(eval_stack) == old(len(eval_stack)) + 1",
         rest_unchanged="forall(0, len(eval_stack) - 1, lambda i: same(eval_stack[i], old(eval_stack[i])))",
@@ -119,6 +122,7 @@ class MetricFetcherApply:
     mode = "ieee"
     self_shape = Obj(f"{S}:MetricFetcher", _next_value=Opt(SampleT), _nones_are_zeros=Bool)
     shapes = dict(eval_stack=StackT)
+    modifies = ["eval_stack"]
     raises = dict(RuntimeError="old(self._next_value is None)")
     ensures = dict(
         has_value="self._next_value is not None",
